@@ -83,6 +83,31 @@ func validDeviceIDSyntax(s string) bool {
 
 var deviceTypes = map[string]bool{"win": true, "adr": true, "mac": true, "ios": true, "lnx": true, "rtr": true, "stv": true, "gam": true, "otr": true}
 
+var reAlnumRuns = regexp.MustCompile(`[A-Za-z0-9]+`)
+
+// normalHumanID returns the human-readable identifier that s stands for.  A
+// valid host-name label (at most 63 bytes, no "---") stands for itself.  Of
+// the identifiers that need the documented best-effort normalisation only the
+// unambiguous ones are modelled: letters and digits separated by runs of
+// characters that are not allowed in a label (and no hyphen anywhere) stand
+// for the runs of letters and digits joined by single hyphens.  Everything
+// else is not modelled (ok is false; such requests are only checked in the
+// security direction).
+func normalHumanID(s string) (human string, ok bool) {
+	if len(s) <= 63 && reLabel.MatchString(s) && !strings.Contains(s, "---") {
+		return s, true
+	}
+	if strings.Contains(s, "-") || len(s) > 200 {
+		return "", false
+	}
+	segs := reAlnumRuns.FindAllString(s, -1)
+	human = strings.Join(segs, "-")
+	if len(segs) == 0 || len(human) > 63 {
+		return "", false
+	}
+	return human, true
+}
+
 // identClaim interprets raw as presented through channel.  fold tells whether
 // the channel is a domain name / URL path element (matched case-insensitively)
 // or an opaque string (matched exactly).  ext tells whether the channel
@@ -91,11 +116,11 @@ func (w *world) identClaim(channel, raw string, fold, ext bool) (c claim, malfor
 	c = claim{Channel: channel, Raw: raw}
 	if ext && strings.Count(raw, "-") >= 2 {
 		parts := strings.SplitN(raw, "-", 3)
-		if !deviceTypes[strings.ToLower(parts[0])] || len(parts[1]) > 8 || parts[1] == "" ||
-			len(parts[2]) > 63 || !reLabel.MatchString(parts[2]) || strings.Contains(parts[2], "---") {
+		human, okHuman := normalHumanID(parts[2])
+		if !deviceTypes[strings.ToLower(parts[0])] || len(parts[1]) > 8 || parts[1] == "" || !okHuman {
 			return c, true
 		}
-		c.ExtProf, c.ExtHuman = strings.ToLower(parts[1]), strings.ToLower(parts[2])
+		c.ExtProf, c.ExtHuman = strings.ToLower(parts[1]), strings.ToLower(human)
 		if d := w.devByHuman(agd.ProfileID(c.ExtProf), c.ExtHuman); d != nil {
 			c.dev, c.Dev, c.Exact = d, string(d.ID), true
 		}
@@ -388,6 +413,9 @@ func (w *world) decide(rq *reqSpec) *decision {
 		dc.Expect, dc.Why = "free", "unknown, inexact or conflicting identifiers"
 	case target.State != stLive:
 		dc.Expect, dc.Why = "free", "device does not belong to a live profile: "+target.State
+	case target.BadHash != "" && s.Proto == agd.ProtoDoH && dc.Cred == "right":
+		// Entitled above (so an attribution is not flagged), but not required.
+		dc.Expect, dc.Why = "free", "the password the unusable stored hash was derived from: undocumented, counted only"
 	default:
 		if _, ok := dc.Entitled[string(target.ID)]; ok {
 			dc.Expect, dc.ExpectDev, dc.Why = "attributed", string(target.ID), "own identifier, policy met"
@@ -579,6 +607,17 @@ func (w *world) judge(r *vkit.Run, rq *reqSpec, dc *decision, ob *observed) {
 	}
 	out := ob.outcome()
 	r.Bucket("outcome:"+out, 1)
+	if target != nil && target.BadHash != "" && s.Proto == agd.ProtoDoH && target.State == stLive {
+		switch dc.Cred {
+		case "right":
+			r.Bucket("badhash_original_password:"+target.BadHash+":"+out, 1)
+		case "wrong", "empty":
+			if dc.Expect == "anonymous" {
+				r.Bucket("badhash_wrong_or_empty_password_cases", 1)
+				r.Bucket("badhash_wrong_or_empty_password_cases:"+target.BadHash, 1)
+			}
+		}
+	}
 	r.Bucket("proto:"+s.protoName(), 1)
 	r.Bucket("expect:"+dc.Expect, 1)
 	for _, res := range ob.Results {
@@ -605,6 +644,9 @@ func (w *world) judge(r *vkit.Run, rq *reqSpec, dc *decision, ob *observed) {
 		if d := w.devByID(a.Dev); d != nil && d.Auto && d.State == stLive {
 			if h, ok := dc.AutoProf[string(d.Prof)]; ok && h == d.HumanLower && (a.Prof == "" || a.Prof == string(d.Prof)) {
 				r.Bucket("attributed_auto_device", 1)
+				if rq.Layer == "human-overlap" && a.Via == "request-info" {
+					r.Bucket("human_overlap_auto_devices", 1)
+				}
 				continue
 			}
 		}
